@@ -136,6 +136,19 @@ def run_estimator(case):
     elif not any(ref.close(got.samples, exp_s[i]) for i in which):
         v.append(viol(f"C04/sample/samples-other-formula/{tag}",
                       "jackknife samples are not computed with the formula used for the value"))
+    # an optional member is dropped from the same object after sampling: the next sample() follows the remaining members
+    if "rr" in members and "dr" in members:
+        try:
+            cf.rr = None
+            vals2 = {k: x for k, x in vals.items() if k != "rr"}
+            samps2 = {k: x for k, x in samps.items() if k != "rr"}
+            d2, s2 = ref.ref_estimator(vals2), ref.ref_estimator(samps2)
+            got2 = cf.sample()
+            if d2 is not None and not any(ref.close(got2.data, d) and ref.close(got2.samples, s_) for d, s_ in zip(d2, s2)):
+                v.append(viol(f"C04/sample/stale-after-member-removed/{tag}",
+                              "after cf.rr = None the same object still samples the estimate that used the random-random counts"))
+        except Exception:
+            pass  # members may be read-only: nothing to check then
     # non-trivial: alternative formulas distinguishable on this input
     alts = []
     with np.errstate(all="ignore"):
